@@ -66,15 +66,19 @@ class Tracked(np.ndarray):
     """ndarray that records writes (views share the log)."""
 
     def __new__(cls, arr, log):
-        obj = np.asarray(arr).view(cls)
+        base = np.asarray(arr)
+        obj = base.view(cls)
         obj._log = log
+        obj._root = base
         return obj
 
     def __array_finalize__(self, obj):
         self._log = getattr(obj, "_log", None)
+        self._root = getattr(obj, "_root", None)
 
     def __setitem__(self, k, v):
-        if self._log is not None:
+        # only a write that lands in the memory of the history itself counts: fancy indexing / copies derived from it are fresh arrays
+        if self._log is not None and self._root is not None and np.shares_memory(self, self._root):
             self._log.append(("setitem", repr(k)[:40]))
         return np.ndarray.__setitem__(self, k, v)
 
